@@ -66,22 +66,28 @@ def prefix(f):
     return f"{t} {prefix(f[1])} {prefix(f[2])}"
 
 
-def text(f):
+ATOM_STYLES = {"ident": "x{k}", "in": "x{k} IN (1, 2)", "notin": "x{k} NOT IN (1, 2)", "cmp": "x{k} = 1", "range": "x{k} IN (1..5:2)", "notrange": "x{k} NOT IN (1..5)"}
+
+
+def text(f, styles=None):
+    """`styles`: atom number -> key of ATOM_STYLES (the other kinds of node the normaliser treats as opaque)."""
     t = f[0]
     if t == "A":
-        return f"x{f[1]}"
+        return ATOM_STYLES[(styles or {}).get(f[1], "ident")].format(k=f[1])
     if t == "N":
-        return f"NOT {text(f[1])}" if f[1][0] in ("A", "P", "N") else f"NOT ({text(f[1])})"
+        if f[1][0] == "A" and (styles or {}).get(f[1][1], "ident") != "ident":
+            return f"NOT ({text(f[1], styles)})"
+        return f"NOT {text(f[1], styles)}" if f[1][0] in ("A", "P", "N") else f"NOT ({text(f[1], styles)})"
     if t == "P":
-        return f"({text(f[1])})"
+        return f"({text(f[1], styles)})"
     op = " AND " if t == "&" else " OR "
     def sub(x):
         # explicit parentheses whenever precedence would otherwise regroup
         if x[0] in ("&", "|") and x[0] != t:
-            return f"({text(x)})"
+            return f"({text(x, styles)})"
         if x[0] == t:
-            return f"({text(x)})"
-        return text(x)
+            return f"({text(x, styles)})"
+        return text(x, styles)
     return sub(f[1]) + op + sub(f[2])
 
 
@@ -327,9 +333,20 @@ def correspondence(ctx, model_ok):
             continue
         chosen = [k for k in atoms_here if rng.random() < 0.5] or [atoms_here[0]]
         repl, spec = {}, []
+        general = rng.random() < 0.5  # replacements that are *not* equivalent to the leaf: constants, other atoms, compound predicates
+        repl_formula = {}
         for k in chosen:
             kind = rng.choice(["and-self", "or-false", "double-not"])
-            if kind == "and-self":
+            if general:
+                kind = rng.choice(["const-true", "const-false", "other-atom", "compound-and", "compound-or", "not-other"])
+                j, m = rng.randrange(na), rng.randrange(na)
+                g_ = {"const-true": ("C", True), "const-false": ("C", False), "other-atom": ("A", j), "compound-and": ("&", ("A", j), ("N", ("A", m))),
+                      "compound-or": ("|", ("A", j), ("A", m)), "not-other": ("N", ("A", j))}[kind]
+                mark = len(req)
+                r_ = build(g_)
+                del req[mark:], impl[mark:]
+                repl_formula[k] = g_
+            elif kind == "and-self":
                 r_ = Predicate.model_construct(operands=((atom(k).operands[0][0],), (atom(k).operands[0][0],)))
             elif kind == "or-false":
                 r_ = Predicate.model_construct(operands=((atom(k).operands[0][0], atom(k).operands[0][0]),))
@@ -343,6 +360,30 @@ def correspondence(ctx, model_ok):
         impl.append(enc_pred(new.operands, leaf_txt))
         n_rw += 1
         ctx.evaluations += 1
+        if general:
+            # substitution semantics, straight from the clauses of the original predicate: a leaf that the visitor replaced takes the
+            # value of its replacement; a leaf under NOT is rebuilt from the original (`apply_logical_not`), i.e. keeps its value
+            ctx.count("rewriting-visitor:general")
+            for asg in itertools.product(K, repeat=na):
+                want = "T"
+                for g in p.operands:
+                    acc = "F"
+                    for leaf in g:
+                        if leaf.predicate_type == "not":
+                            v = not3(asg[leaf.operand.a.value])
+                        elif leaf.a.value in repl_formula:
+                            v = ev(repl_formula[leaf.a.value], asg)
+                        else:
+                            v = asg[leaf.a.value]
+                        acc = or3(acc, v)
+                    want = and3(want, acc)
+                got = new.visit(Eval(asg))
+                if got != want:
+                    viol(f"rewriting visitor replacing atoms {repl_formula} in the predicate {enc_pred(p.operands, leaf_txt)}: value {got} under {''.join(asg)}, "
+                         f"substituting the replacements gives {want}", f"rewrite-subst:{f}:{sorted(repl_formula.items())}:{''.join(asg)}",
+                         {"kind": "rewrite", "formula": f, "replaced": {str(k): v for k, v in repl_formula.items()}, "assignment": "".join(asg)})
+                    break
+            continue
         for asg in itertools.product(K, repeat=na):
             want = ev(f, asg)
             got = new.visit(Eval(asg))
@@ -358,6 +399,12 @@ def correspondence(ctx, model_ok):
     def node_eval(n, asg):
         if isinstance(n, exprTree.Identifier):
             return asg[int(n.name[1:])]
+        if isinstance(n, exprTree.IsIn):
+            # `asg` gives the value of the membership test itself; NOT IN is its negation (unknown stays unknown)
+            v = asg[int(n.lhs.name[1:])]
+            return not3(v) if n.not_in else v
+        if isinstance(n, exprTree.BinaryOp) and n.op == "=":
+            return asg[int(n.lhs.name[1:])]
         if isinstance(n, exprTree.Parens):
             return node_eval(n.expr, asg)
         if isinstance(n, exprTree.UnaryOp) and n.op == "NOT":
@@ -376,7 +423,7 @@ def correspondence(ctx, model_ok):
                 return literal(x.expr)
             if isinstance(x, exprTree.UnaryOp) and x.op == "NOT":
                 return literal(x.operand)
-            return isinstance(x, exprTree.Identifier)
+            return isinstance(x, (exprTree.Identifier, exprTree.IsIn)) or (isinstance(x, exprTree.BinaryOp) and x.op == "=")
 
         def inner_chain(x):
             if isinstance(x, exprTree.Parens):
@@ -406,8 +453,15 @@ def correspondence(ctx, model_ok):
             continue
         legacy.append((f, na))
     rows2 = 0
-    for f, na in legacy:
-        s = text(f)
+    # the same formulas again with the other kinds of opaque atom (IN / NOT IN lists and ranges, comparisons): decided by the
+    # truth-table oracle; the model speaks about numbered atoms and is compared on the identifier spelling only
+    styled = []
+    for f, na in legacy[:: 2 if ctx.quick() else 1]:
+        styles = {k: rng.choice(list(ATOM_STYLES)) for k in range(na)}
+        if any(v != "ident" for v in styles.values()):
+            styled.append((f, na, styles))
+    for f, na, styles in [(f, na, None) for f, na in legacy] + styled:
+        s = text(f, styles)
         fm = strip_added_parens(f)
         try:
             root = parser.parse(s)
@@ -417,6 +471,9 @@ def correspondence(ctx, model_ok):
         ctx.nontrivial.add("L" + s)
         ctx.count("legacy:" + f[0])
         w = root.visit(TransformationVisitor())
+        mark_styled = len(req)
+        if styles:
+            ctx.count("legacy:styled-atoms")
         req.append("pred wrap " + prefix(fm))
         impl.append(str(w))
         for form, fc in ((NormalForm.CONJUNCTIVE, "C"), (NormalForm.DISJUNCTIVE, "D")):
@@ -441,7 +498,8 @@ def correspondence(ctx, model_ok):
             # the printed normal form must re-parse to the same truth table as well (what the legacy query code consumes)
             reparsed = parser.parse(str(back))
             for asg in itertools.product(K, repeat=na):
-                want = ev(f, asg)
+                # the value of atom k as written: a NOT IN atom is the negation of its membership test
+                want = ev(f, tuple(not3(v) if styles and styles[k].startswith("not") else v for k, v in enumerate(asg)))
                 got = node_eval(back, asg)
                 got2 = node_eval(reparsed, asg)
                 # and the node lists themselves
@@ -458,6 +516,8 @@ def correspondence(ctx, model_ok):
                          f"legacy:{s}:{fc}:{''.join(asg)}",
                          {"kind": "legacy", "expr": s, "form": form.name, "assignment": "".join(asg), "result": str(back)})
                     break
+        if styles:
+            del req[mark_styled:], impl[mark_styled:]
     ctx.extra["legacy_truth_table_rows"] = rows2
 
     for i in range(0, len(req), max(1, len(req) // 6)):
